@@ -16,6 +16,8 @@ ASSUMPTIONS = [
     "index; regex patterns, fixed str values, list/dict/any call arguments come from menus (re.compile, character "
     "hashing and container construction are C boundaries) - see engine/hlib.py",
     "in a 2-argument len() call at most one argument is wrongly typed at a time; the other ranges over int/bool/Ellipsis",
+    "float.menu3: every order of (fixed value, precision, min|max) with values/bounds from menus chosen around rounding "
+    "boundaries - rounding of a symbolic double is out of CrossHair's reach, so this part is menu-bounded",
     "receiver unchanged = same registry keys and identical value objects before/after a raising call",
     "fixed value conforms = validate(result, result.props.value) clean; for lists: fully fixed element list",
 ]
@@ -174,9 +176,36 @@ def chain_harness(typ, chain, active_kf, timeout=60):
               functions=FUNCS, bounds=BOUNDS, kf=kf, active_kf=active_kf)
 
 
+FLOAT_MENU = """
+import itertools as _it
+VALS = (3.144, 3.146, 0.25, 2.675, -0.5, 0.0, 1e-07)
+BNDS = (3.142, 3.148, 3.14, 3.15, 0.2, 0.3, 0.25, 2.67, 2.68, -0.5, 0.0)
+vi, bi, pi, oi, mm = conc(vi, 6), conc(bi, 10), conc(pi, 2), conc(oi, 5), conc(mm, 1)
+with notrace():
+    steps = [("call", VALS[vi]), ("precision", (1, 2, 15)[pi]), (("min", "max")[mm], BNDS[bi])]
+    order = list(_it.permutations(range(3)))[oi]
+    cur = schema.float
+    tag = "ok"
+    for k in order:
+        name, arg = steps[k]
+        try:
+            cur = cur(arg) if name == "call" else getattr(cur, name)(arg)
+        except DeclarationError:
+            tag = "raised"
+            break
+    ok = True
+    if tag == "ok":
+        ok = ok_validate(cur, cur.props.value)
+return ok, tag
+"""
+
+
 def harnesses(tier, seed, active_kf=()):
     import random
     out = []
+    out.append(mk("C10.float.menu3", "vi: int, bi: int, pi: int, oi: int, mm: int", FLOAT_MENU, covers=("ok", "raised"),
+                  pre=["0 <= vi <= 6", "0 <= bi <= 10", "0 <= pi <= 2", "0 <= oi <= 5", "0 <= mm <= 1"], timeout=200, functions=FUNCS,
+                  bounds=BOUNDS))
     maxlen = 3 if tier == "thorough" else 2
     for typ, meths in METHODS.items():
         for n in range(1, maxlen + 1):
